@@ -96,6 +96,14 @@ class NotYet(Unsupported):
     """a call of a method of the class that has not been translated (yet)"""
 
 
+def check_name(nm):
+    """a C++ parameter / local must not look like a name the symbolic execution generates, nor be a field"""
+    import re as _re
+    if nm in FIELD_TYPES or _re.match(r"^(c|call|r|it_hd)_\d+$", nm or "") or (nm or "").startswith("l_") or \
+            any(_re.match("^" + _re.escape(f) + r"\d+$", nm or "") for f in FIELD_TYPES):
+        raise Unsupported("the name %s of a parameter / local is a field or looks like a generated name" % nm)
+
+
 def sort_of(ty):
     return I.sort_of_type(ty, OVR)
 
@@ -112,8 +120,7 @@ class Enu(I.Imp):
         self.ctor_default = ctor_default
         self.fparams = dict(FPARAMS)
         for p, _ in self.params:
-            if p in FIELD_TYPES:
-                raise Unsupported("parameter %s has the name of a field" % p)
+            check_name(p)
 
     # ------------------------------------------------------------------ locations
     def loc(self, n, env):
@@ -202,6 +209,13 @@ class Enu(I.Imp):
         if k in ("CXXConstructExpr", "CXXTemporaryObjectExpr") and len(self.args_of(n, 0)) == 3 and \
                 sort_of(n.get("type", {}).get("qualType", "")) == "vec":
             return Val(self.three_scalars(self.args_of(n, 0), env, "Eigen::Vector3d(x, y, z)"), "vec")
+        if k in ("CXXConstructExpr", "CXXTemporaryObjectExpr") and len(self.args_of(n, 0)) == 1:
+            # a copy is transparent; a converting constructor (a transform from a matrix, a base slice, ..) is not
+            v = self.ev(self.args_of(n, 0)[0], env)
+            s = sort_of(n.get("type", {}).get("qualType", ""))
+            if s != v.sort:
+                raise Unsupported("conversion of a %s to %s" % (v.sort, n.get("type", {}).get("qualType", "")[:60]))
+            return v
         if k in ("CXXConstructExpr", "CXXTemporaryObjectExpr") and not self.args_of(n, 0):
             ty = n.get("type", {}).get("qualType", "")
             if sort_of(ty) == "geo" and n.get("zeroing"):
@@ -265,7 +279,10 @@ class Enu(I.Imp):
                     continue
                 if isref and root == ("this",) and steps and steps[0][1] in kn.writes:
                     raise Unsupported("the argument of %s is the field %s, which %s assigns, passed by reference" % (meth, steps[0][1], meth))
-            r = self.call_known(kn, [self.ev(a, env) for a in args], env)
+            argv = [self.ev(a, env) for a in args]
+            if [a.sort for a in argv] != list(getattr(kn, "param_sorts", [a.sort for a in argv])):
+                raise Unsupported("call of %s with arguments of sorts %s" % (meth, [a.sort for a in argv]))
+            r = self.call_known(kn, argv, env)
             if want_value and r is None:
                 raise Unsupported("value of void member function %s" % meth)
             return r
@@ -313,8 +330,7 @@ class Enu(I.Imp):
             return self.ctor_init(st, env)
         if k == "DeclStmt":
             for v in st.get("inner", []):
-                if v.get("name") in FIELD_TYPES:
-                    raise Unsupported("local %s has the name of a field" % v.get("name"))
+                check_name(v.get("name"))
                 if v.get("storageClass") or v.get("tls"):
                     raise Unsupported("local %s with storage class %s" % (v.get("name"), v.get("storageClass") or "thread_local"))
             r = super().stmt(st, env)
@@ -537,6 +553,7 @@ def generate(repo):
                 out.append(text.replace(head, head + "{T : Type} (N : NumOps T) "))
                 out.append(wrapper(suffix, kn, f.params))
                 kn.coq = "(src_%s N %s)" % (suffix, FARGS)
+                kn.param_sorts = [ps_ for _, ps_ in f.params]
                 kn.ref_params = [c.get("type", {}).get("qualType", "").rstrip().endswith("&") for c in node.get("inner", [])
                                  if c.get("kind") == "ParmVarDecl"]
                 known_by_key[key] = kn
